@@ -35,6 +35,8 @@ start pose i; its candidates are exactly the later poses i+1..n-1; R_i is
 paired with every candidate; the compared blocks are poses[.][:3, :3]; the
 angle is the per-candidate norm of the rotation vector of R_a^-1 R_b; a hit at
 candidate position k is reported as the pair (i, i+1+k).
+C10.12 (wave 7): --all_pairs / --pairs_from_reference and the other RPE
+options reach the constructor parameter of their name (instances of C02.7).
 """
 UNDECIDED = [
     "minimality of j and maximality of the chain as semantic facts for all "
